@@ -93,9 +93,27 @@ Inductive perr :=
 | EUnexpected          (* tokenizer.error(token_type, token_value) *)
 | EEofBlock            (* lone name at end of file *)
 | EEofOpen             (* unclosed blocks at end of file *)
-| EIndex.              (* IndexError escaping from cur_block_contents[-1] on an empty list *)
+| EIndex               (* IndexError escaping from cur_block_contents[-1] / root[0] on an empty list *)
+| ENewlineValue.       (* newline_values=False and a line break in a value *)
 
-Inductive pres := POk (d : list kv) | PErr (e : perr).
+(** [POk d]: the root object with children [d]; [PNode k]: single_block=True returned one node. *)
+Inductive pres := POk (d : list kv) | PNode (k : kv) | PErr (e : perr).
+
+(** * Decisive sites of Keyvalues.parse regenerated from the source (Gen/KVSer_gen.v) *)
+(** The test guarding 'Illegal newline found in key/value': a disjunction of ['c' in text] over single
+    characters ([BTChars]), or anything else ([BTOther]: kept so that the obligation, not the translator, fails). *)
+Inductive brktest := BTChars (l : list char) | BTOther.
+Record parsecfg := {
+  p_key_break : brktest;        (* ... and not newline_keys *)
+  p_value_break : brktest;      (* ... and not newline_values *)
+  p_replace_guard : bool;       (* both flag-replacement tests check that the block has a child before [-1] *)
+  p_single_block_guard : bool;  (* the single_block early return at a closing brace checks that root has a child *)
+}.
+
+(** Options of Keyvalues.parse that the model covers (allow_escapes is passed to the tokenizer; only True is modelled). *)
+Record popts := { po_newline_keys : bool; po_newline_values : bool; po_single_line : bool; po_single_block : bool }.
+Definition default_popts : popts :=
+  {| po_newline_keys := false; po_newline_values := true; po_single_line := false; po_single_block := false |}.
 
 (** * Templates of the writer (generated from the f-strings of Keyvalues._serialise / serialise) *)
 Inductive tvar := VCurIndent | VIndent | VOpenBrace | VCloseBrace.
@@ -107,7 +125,13 @@ Inductive piece :=
 | PEsc (f : field)        (* {escape_text(self._real_name)} / {escape_text(self._value)} *)
 | POther.                 (* any other interpolation (kept so that the obligation, not the translator, fails) *)
 
+(** The test that makes _serialise / export() treat a block as the nameless root: [self._real_name is None]
+    ([RTIsNone]: never true of a named node), a truth test such as [not self._real_name] ([RTFalsy]: also true
+    of a block named by the empty string), or anything else. *)
+Inductive roottest := RTIsNone | RTFalsy | RTOther.
+
 Record sercfg := {
+  t_root_test : roottest;       (* the root test of _serialise *)
   t_open_ind : list piece;      (* open_brace when indent_braces *)
   t_close_ind : list piece;
   t_open_plain : list piece;    (* open_brace otherwise *)
@@ -117,6 +141,16 @@ Record sercfg := {
   t_tail : list piece;          (* all writes of a named block after its children *)
   t_leaf : list piece;          (* all writes of a leaf *)
   t_root_indent : list piece;   (* the cur_indent passed to the children of the root *)
+}.
+
+(** Templates of the deprecated writer [Keyvalues.export()] (a generator of lines): the yields before and after
+    the children of a named block, the constant put in front of every line of the children, the yields of a leaf. *)
+Record expcfg := {
+  x_root_test : roottest;
+  x_head : list (list piece);
+  x_prefix : list piece;
+  x_tail : list (list piece);
+  x_leaf : list (list piece);
 }.
 
 Record escfg := {
